@@ -350,6 +350,8 @@ func runC24(c *Ctx) []Obligation {
 	// "when due": the sweeps run at the end of every block, unconditionally
 	out = append(out, c.hookRowsEnd(P)...)
 	out = append(out, appsUnstakeLifecycle(c, P)...)
+	out = append(out, queueWriteBack(c, P)...)
+	out = append(out, sweepsVisitEverything(c, P, "(x/apps/keeper.Keeper).unstakeAllMatureApplications", "(x/nodes/keeper.Keeper).unstakeAllMatureValidators")...)
 	return out
 }
 
@@ -432,6 +434,7 @@ func runC21(c *Ctx) []Obligation {
 		c.whoMayCall(P, "queue.slot-removers", "(x/nodes/keeper.Keeper).deleteUnstakingValidators", []string{kN + `deleteUnstakingValidator`}, "a whole completion-time slot is dropped only when removing its last entry empties it"),
 		c.origCopyBeforeMutation(P),
 	)
+	out = append(out, queueWriteBack(c, P)...)
 	return out
 }
 
